@@ -104,10 +104,95 @@ def line_f(kind, l):
     return None
 
 
+# ---------------------------------------------------------------------------
+# owner-only requests ({del topic}, {set desc public|trusted|defacs}, {set tags}): outside the op
+# alphabet of Sys/Topic.v; gate model Sys/OwnerGate.v against the real server, exhaustively.
+
+GATE_KINDS = ["deltopic", "public", "trusted", "defacs", "defacso", "tags"]
+GATE_ACTORS = {"owner": (1, 1, 1), "admin": (0, 0, 1), "pending": (0, 0, 1), "stranger": (0, 0, 0)}   # owner_c, owner_s, subscribed
+
+
+def gate_cases():
+    res = []
+    for kind in GATE_KINDS:
+        for actor in GATE_ACTORS:
+            for loaded, attached in ((0, 0), (1, 0), (1, 1)):
+                if actor == "stranger" and attached:
+                    continue    # attaching subscribes
+                for root in (0, 1):
+                    res.append((kind, actor, loaded, attached, root))
+    return res
+
+
+def gate_check(ctx, cases):
+    """-> (number of cases run, mismatches, law failures); violations are recorded in ctx"""
+    ok1, _ = ctx.build_runner()
+    ok2, _ = ctx.build_main()
+    if not (ok1 and ok2):
+        return 0, 0, 0     # reported by run_stateful
+    ilines = ["gate %s %s %d %d %d" % c for c in cases]
+    mlines = ["gate %s %d %d %d %d %d %d" % ((c[0], c[2], c[3]) + GATE_ACTORS[c[1]] + (c[4],)) for c in cases]
+    rc, impl, log = ctx.run_main_lines("c06", ilines)
+    if rc != 0 or len(impl) != len(cases):
+        ctx.violation("monitor", "server-crashed", "the server process died while running the owner-only request cases: " + log[-1500:],
+                      {"gate": ilines, "log": log[-4000:]})
+        return len(cases), 0, 1
+    rc2, model, err = ctx.run_model("c06", mlines)
+    if rc2 != 0 or len(model) != len(cases):
+        ctx.violation("proof", "runner-crashed", "model runner failed on the gate cases: " + err[-1500:], {"theorem_or_obligation": "model runner c06"})
+        return len(cases), 0, 0
+    fails, mism = [], []
+    for c, il, i, m in zip(cases, ilines, impl, model):
+        w = i.split()
+        if len(w) < 2 or w[0] not in ("all", "own", "none"):
+            fails.append(("owner-only-op-unanswered", il, i))
+            continue
+        if w[0] == "all" and c[1] != "owner":
+            fails.append(("owner-only-op", il, i))
+        if "lost=" in i:
+            fails.append(("owner-only-op-foreign-subscription-lost", il, i))
+        if w[0] == "own" and c[0] != "deltopic":
+            fails.append(("owner-only-op", il, i))
+        if w[:2] != m.split() or ("loaded=%d" % c[2]) not in w or ("attached=%d" % c[3]) not in w:
+            mism.append((il, i, m))
+    seen = set()
+    for law, il, i in fails:
+        if law not in seen:
+            seen.add(law)
+            ctx.violation("monitor", law, "law %s fails on the real server: request '%s' by a user who is not the owner answered '%s' (%d such cases)"
+                          % (law, il, i, len([1 for f in fails if f[0] == law])), {"gate": [il], "law": law, "observed": i})
+    if mism and not fails:
+        il, i, m = mism[0]
+        ctx.violation("corr", "correspondence-owner-gate",
+                      "gate model Sys/OwnerGate.v and the server disagree on %d of %d owner-only request cases; first: '%s' server '%s' model '%s'; no non-owner was served in any of the %d cases (the case space is run exhaustively)"
+                      % (len(mism), len(cases), il, i, m, len(cases)), {"correspondence": "owner-only gate", "gate": [x[0] for x in mism[:20]]})
+    return len(cases), len(mism), len(fails)
+
+
+def parse_gate_line(l):
+    w = l.split()
+    return (w[1], w[2], int(w[3]), int(w[4]), int(w[5]))
+
+
 def run(ctx):
+    import json
+    if ctx.replay:
+        rp = json.load(open(ctx.replay))
+        if "gate" in rp.get("replay", {}):
+            ctx.coq_props()
+            import vlib
+            vlib.proof_violation(ctx)
+            n, mm, ff = gate_check(ctx, [parse_gate_line(l) for l in rp["replay"]["gate"]])
+            ctx.coverage.update({"evaluations": n, "distinct_nontrivial": n, "rule": "replay of owner-only request cases"})
+            ctx.finish()
+    else:
+        n, mm, ff = gate_check(ctx, gate_cases())
+        ctx.coverage["owner_only_gate"] = {
+            "cases_run_on_real_server": n, "exhaustive_over": "6 request kinds x {owner, administrator without O, pending transferee, stranger} x {not loaded, loaded by another session, attached} x {auth, root}",
+            "mismatches_with_gate_model": mm, "law_failures": ff}
     statelib.run_stateful(
         ctx, [("perm", 0.0, 0.75), ("perm", 0.12, 0.25)], monitor,
         dict(ops={"sub", "setsub", "delsub", "leave"}, frame=frame_f, line=line_f, keys=("frames", "store", "cache")),
         rule="seeded random histories over one group topic: subscribe (arbitrary requested modes incl. O, junk), invite / permission change by owner, approvers, sharers, members, pending transferees (seeded O in the grant), strangers; acceptance, self-ban, leave, unsubscribe, eviction, with unload/restart between steps and a share with single store faults; non-trivial = at least one accepted mutating request",
         trusted=["projection compared for C06: ctrl replies of sub/set-sub/del-sub/leave requests, stored want/given/deleted per user and topics.owner, cached want/given per user and Topic.owner",
-                 "{del topic}, {set desc}, {set tags} (owner-only operations) are outside the group-topic model; C13/C14 drivers exercise them without judging ownership"])
+                 "{del topic}, {set desc public|trusted|defacs}, {set tags}: gate model Sys/OwnerGate.v (decision only: who is served, reply code, whether the effect is topic-wide / own subscription / none), compared with the real server on every case of its input space by harness/overlay/server/zz_verif_c06_test.go; the effects themselves (what is deleted, notifications) are not modelled"])
